@@ -36,7 +36,7 @@ man = {
         "serves_properties": sorted(CHECKS),
         "kind_free_text": "repository-specific static analysis on the Python ast: resolved program model (imports, C3 MRO, call "
                           "resolution with argument binding), statement CFGs with must-pass-through / reaching definitions, "
-                          "abstract evaluation of declarative tables, decision-table interval algebra, regex structure via re._parser",
+                          "abstract evaluation of declarative tables, decision-table interval algebra (chain + symbolic readers), regex structure and regex language inclusion (automata) via re._parser, effect / shape / provenance analyses",
     }],
     "checks": checks,
     "notes": NOTES,
